@@ -1,6 +1,7 @@
 //! Correspondence + oracle harness for neuppl/rsdd (library part; one binary per property in src/bin).  Rebuilt from /repo's working tree on
 //! every check.  usage: harness <PROP> gen|replay --seed S --n N --tier quick|thorough --out DIR [--cases FILE]
 pub mod bddprog;
+pub mod exprs;
 pub mod util;
 use std::collections::HashSet;
 use std::io::Write;
